@@ -61,6 +61,10 @@ static const double strongWeight = 0.001;
 static const double strongerWeight = 1.0;
 static const double fixedWeight  = 100000;
 
+#ifdef ADAPTAGRAMS_VERIF
+VerifNudgeRegionSink verifNudgeRegionSink = nullptr;
+#endif
+
 
 // A pair of unsigned values that can be compared and used as the keys
 // for sets and maps.
@@ -488,6 +492,35 @@ class NudgingShiftSegment : public ShiftSegment
             }
             return false;
         }
+
+#ifdef ADAPTAGRAMS_VERIF
+        // Verification hook: snapshot of this segment (see orthogonal.h).
+        void verifDescribe(VerifNudgeSegment& out, const size_t dim) const
+        {
+            const size_t altDim = (dim + 1) % 2;
+            out.connId = connRef->id();
+            out.low = lowPoint()[altDim];
+            out.high = highPoint()[altDim];
+            out.pos = lowPoint()[dim];
+            out.minSpaceLimit = minSpaceLimit;
+            out.maxSpaceLimit = maxSpaceLimit;
+            out.fixed = fixed;
+            out.finalSegment = finalSegment;
+            out.endsInShape = endsInShape;
+            out.singleConnectedSegment = singleConnectedSegment;
+            out.sBend = sBend;
+            out.zBend = zBend;
+            out.indexCount = indexes.size();
+            out.checkpoints.clear();
+            for (size_t cp = 0; cp < checkpoints.size(); ++cp)
+            {
+                out.checkpoints.push_back(checkpoints[cp][dim]);
+                out.checkpoints.push_back(checkpoints[cp][altDim]);
+            }
+            out.writtenLow = out.pos;
+            out.writtenHigh = highPoint()[dim];
+        }
+#endif
 
         ConnRef *connRef;
         Variable *variable;
@@ -2660,12 +2693,64 @@ void ImproveOrthogonalRoutes::nudgeOrthogonalRoutes(size_t dimension,
                     lineSortComp);
         }
 
+#ifdef ADAPTAGRAMS_VERIF
+        VerifNudgeRegion verifRegion;
+        if (verifNudgeRegionSink)
+        {
+            verifRegion.dimension = dimension;
+            verifRegion.justUnifying = justUnifying;
+            verifRegion.skipped = false;
+            verifRegion.nudgeFinalSegments = nudgeFinalSegments;
+            verifRegion.nudgeSharedPathsWithCommonEnd =
+                    nudgeSharedPathsWithCommonEnd;
+            verifRegion.nudgeTouchingColinearSegments =
+                    m_router->routingOption(
+                        nudgeOrthogonalTouchingColinearSegments);
+            verifRegion.fixedSharedPathPenalty =
+                    m_router->routingParameter(fixedSharedPathPenalty);
+            verifRegion.baseSepDist = baseSepDist;
+            verifRegion.satisfied = false;
+            for (ShiftSegmentList::iterator it = currentRegion.begin();
+                    it != currentRegion.end(); ++it)
+            {
+                verifRegion.segments.push_back(VerifNudgeSegment());
+                static_cast<NudgingShiftSegment *> (*it)->verifDescribe(
+                        verifRegion.segments.back(), dimension);
+            }
+            for (size_t i = 0; i < verifRegion.segments.size(); ++i)
+            {
+                for (size_t j = 0; j < verifRegion.segments.size(); ++j)
+                {
+                    unsigned int a = verifRegion.segments[i].connId;
+                    unsigned int b = verifRegion.segments[j].connId;
+                    std::pair<unsigned int, unsigned int> ab(a, b);
+                    if ((a < b) &&
+                            (m_shared_path_connectors_with_common_endpoints.count(
+                                 UnsignedPair(a, b)) > 0) &&
+                            (std::find(verifRegion.commonEndPairs.begin(),
+                                 verifRegion.commonEndPairs.end(), ab) ==
+                             verifRegion.commonEndPairs.end()))
+                    {
+                        verifRegion.commonEndPairs.push_back(ab);
+                    }
+                }
+            }
+        }
+#endif
+
         if (currentRegion.size() == 1)
         {
             // Save creating the solver instance if there is just one
             // immovable segment, or if we are in the unifying stage.
             if (currentRegion.front()->immovable() || justUnifying)
             {
+#ifdef ADAPTAGRAMS_VERIF
+                if (verifNudgeRegionSink)
+                {
+                    verifRegion.skipped = true;
+                    verifNudgeRegionSink(verifRegion);
+                }
+#endif
                 delete currentRegion.front();
                 continue;
             }
@@ -2874,6 +2959,40 @@ void ImproveOrthogonalRoutes::nudgeOrthogonalRoutes(size_t dimension,
         std::list<UnsatisfiedRange> unsatisfiedRanges;
         do
         {
+#ifdef ADAPTAGRAMS_VERIF
+            if (verifNudgeRegionSink)
+            {
+                // The problem as handed to the solver in this attempt.
+                if (verifRegion.variables.empty())
+                {
+                    for (size_t i = 0; i < vs.size(); ++i)
+                    {
+                        VerifNudgeVariable var;
+                        var.id = vs[i]->id;
+                        var.desiredPosition = vs[i]->desiredPosition;
+                        var.weight = vs[i]->weight;
+                        verifRegion.variables.push_back(var);
+                    }
+                }
+                verifRegion.attempts.push_back(VerifNudgeAttempt());
+                VerifNudgeAttempt& attempt = verifRegion.attempts.back();
+                attempt.sepDist = sepDist;
+                attempt.satisfied = false;
+                attempt.retry = false;
+                for (size_t c = 0; c < cs.size(); ++c)
+                {
+                    VerifNudgeConstraint con;
+                    con.left = std::find(vs.begin(), vs.end(), cs[c]->left) -
+                            vs.begin();
+                    con.right = std::find(vs.begin(), vs.end(), cs[c]->right) -
+                            vs.begin();
+                    con.gap = cs[c]->gap;
+                    con.equality = cs[c]->equality;
+                    con.unsatisfiable = false;
+                    attempt.constraints.push_back(con);
+                }
+            }
+#endif
             IncSolver f(vs, cs);
             f.solve();
 
@@ -2957,6 +3076,24 @@ void ImproveOrthogonalRoutes::nudgeOrthogonalRoutes(size_t dimension,
             if (!satisfied)
             {
                 fprintf(stderr,"unsatisfied\n");
+            }
+#endif
+#ifdef ADAPTAGRAMS_VERIF
+            if (verifNudgeRegionSink)
+            {
+                // The solver outcome of this attempt.  The constraint list
+                // can only shrink (by its last element) after this point.
+                VerifNudgeAttempt& attempt = verifRegion.attempts.back();
+                attempt.satisfied = satisfied;
+                for (size_t i = 0; i < vs.size(); ++i)
+                {
+                    attempt.finalPositions.push_back(vs[i]->finalPosition);
+                }
+                for (size_t c = 0; c < attempt.constraints.size(); ++c)
+                {
+                    attempt.constraints[c].unsatisfiable =
+                            cs[c]->unsatisfiable;
+                }
             }
 #endif
 
@@ -3087,6 +3224,13 @@ void ImproveOrthogonalRoutes::nudgeOrthogonalRoutes(size_t dimension,
                     }
                 }
             }
+#ifdef ADAPTAGRAMS_VERIF
+            if (verifNudgeRegionSink)
+            {
+                verifRegion.attempts.back().retry =
+                        (!satisfied && (sepDist > 0.0001));
+            }
+#endif
         }
         while (!satisfied && (sepDist > 0.0001));
 
@@ -3104,6 +3248,25 @@ void ImproveOrthogonalRoutes::nudgeOrthogonalRoutes(size_t dimension,
                 segment->updatePositionsFromSolver(justUnifying);
             }
         }
+#ifdef ADAPTAGRAMS_VERIF
+        if (verifNudgeRegionSink)
+        {
+            verifRegion.satisfied = satisfied;
+            size_t verifIndex = 0;
+            for (ShiftSegmentList::iterator currSegment = currentRegion.begin();
+                    currSegment != currentRegion.end();
+                    ++currSegment, ++verifIndex)
+            {
+                NudgingShiftSegment *segment =
+                        static_cast<NudgingShiftSegment *> (*currSegment);
+                verifRegion.segments[verifIndex].writtenLow =
+                        segment->lowPoint()[dimension];
+                verifRegion.segments[verifIndex].writtenHigh =
+                        segment->highPoint()[dimension];
+            }
+            verifNudgeRegionSink(verifRegion);
+        }
+#endif
 #ifdef NUDGE_DEBUG
         for(unsigned i=0;i<vs.size();i++) {
             fprintf(stderr, "+vs[%d]=%f\n",i,vs[i]->finalPosition);
